@@ -86,14 +86,17 @@ def firstSeen {α : Type} [DecidableEq α] (xs : List α) : List α :=
 section Core
 variable {ρ κ : Type} [DecidableEq κ]
 
+/-! `emit`, `collected` and `nonNull` do not look at the values: they are stated for any type `ν` of
+values (`Int` here; `XVal` — floats with the infinities and NaN — in `Model/GroupByX.lean`). -/
+
 /-- What `_map` yields (group_by.py:103-113): row-major, one triple per collected column. -/
-def emit (keyOf : ρ → κ) (cell : ρ → String → Option Int) (cols : List String) (rows : List ρ) :
-    List (κ × String × Option Int) :=
+def emit {ν : Type} (keyOf : ρ → κ) (cell : ρ → String → Option ν) (cols : List String) (rows : List ρ) :
+    List (κ × String × Option ν) :=
   rows.flatMap fun r => cols.map fun c => (keyOf r, c, cell r c)
 
 /-- `column_value_map[g][c]` after the collecting loop (group_by.py:133-137): the non-null
 values of the triples of group `g` and column `c`, in emission order. -/
-def collected (s : List (κ × String × Option Int)) (g : κ) (c : String) : List Int :=
+def collected {ν : Type} (s : List (κ × String × Option ν)) (g : κ) (c : String) : List ν :=
   s.filterMap fun t => if t.1 = g ∧ t.2.1 = c then t.2.2 else none
 
 /-- `aggregate` up to the layout of the result rows: the groups in insertion order of
@@ -109,7 +112,7 @@ def aggregate (keyOf : ρ → κ) (cell : ρ → String → Option Int) (rows : 
 def members (keyOf : ρ → κ) (rows : List ρ) (k : κ) : List ρ := rows.filter fun r => keyOf r = k
 
 /-- The non-null values of column `c` over some rows. -/
-def nonNull (cell : ρ → String → Option Int) (rs : List ρ) (c : String) : List Int :=
+def nonNull {ν : Type} (cell : ρ → String → Option ν) (rs : List ρ) (c : String) : List ν :=
   rs.filterMap fun r => cell r c
 
 /-- The distinct keys, in order of first occurrence. -/
@@ -125,7 +128,7 @@ def reference (keyOf : ρ → κ) (cell : ρ → String → Option Int) (rows : 
 /-- `groups()` (group_by.py:232-251): runs `_map("*")` for its side effect on `_group_keys`
 and returns one row per registered group. -/
 def groupsOf (keyOf : ρ → κ) (rows : List ρ) : List κ :=
-  firstSeen ((emit keyOf (fun _ _ => some 0) ["*"] rows).map (·.1))
+  firstSeen ((emit keyOf (fun _ _ => some (0 : Int)) ["*"] rows).map (·.1))
 
 /-! ### Several calls on one `GroupBy` object
 
@@ -161,7 +164,7 @@ def stepS (keyOf : ρ → κ) (cell : ρ → String → Option Int) (rows : List
     Op → List κ × Out κ
   | .aggregate reqs => (register st (rows.map keyOf), .table (aggregate keyOf cell rows reqs))
   | .groups =>
-    let st' := register st ((emit keyOf (fun _ _ => some 0) ["*"] rows).map (·.1))
+    let st' := register st ((emit keyOf (fun _ _ => some (0 : Int)) ["*"] rows).map (·.1))
     (st', .keys st')
 
 /-- A sequence of calls on one object, oldest first. -/
@@ -170,6 +173,28 @@ def runS (keyOf : ρ → κ) (cell : ρ → String → Option Int) (rows : List 
   | _, [] => []
   | st, op :: ops =>
     (stepS keyOf cell rows st op).2 :: runS keyOf cell rows (stepS keyOf cell rows st op).1 ops
+
+/-- A step of a history of one `GroupBy` object whose frame is also mutated: a call on the object, or
+`df.append(row)` on its frame (dataframe.py:136-152; the object holds a reference to the frame, so
+later calls walk the longer frame). -/
+inductive OpA (ρ : Type) where
+  | call (op : Op)
+  | append (r : ρ)
+
+/-- The results of the calls of such a history, on an object whose `_group_keys` holds `st`. -/
+def runSA (keyOf : ρ → κ) (cell : ρ → String → Option Int) :
+    List ρ → List κ → List (OpA ρ) → List (Out κ)
+  | _, _, [] => []
+  | rows, st, .append r :: ops => runSA keyOf cell (rows ++ [r]) st ops
+  | rows, st, .call op :: ops =>
+    (stepS keyOf cell rows st op).2 :: runSA keyOf cell rows (stepS keyOf cell rows st op).1 ops
+
+/-- The same calls, each alone on a fresh object of the frame as it is at the time of the call. -/
+def aloneA (keyOf : ρ → κ) (cell : ρ → String → Option Int) :
+    List ρ → List (OpA ρ) → List (Out κ)
+  | _, [] => []
+  | rows, .append r :: ops => aloneA keyOf cell (rows ++ [r]) ops
+  | rows, .call op :: ops => (stepS keyOf cell rows [] op).2 :: aloneA keyOf cell rows ops
 
 end Core
 
